@@ -946,7 +946,8 @@ class ExprMixin:
         each generator needing a loop invariant (ordinal of the comprehension node + generator index)."""
         spec_key = (fr.finfo.qualname, fr.loop_ordinal(e))
         spec = self.loop_specs.get(spec_key)
-        if spec is None:
+        if spec is None or not (isinstance(spec, tuple) and len(spec) == 2):
+            # (a contract written for a for statement at this ordinal does not fit a comprehension: the code was restructured)
             raise OutsideSubset(f"comprehension #{spec_key[1]} of {spec_key[0]} over an abstract sequence has no invariant")
         acc_shape, gens = spec      # (ListS, [LoopSpec per generator])
         fr.env["__acc"] = AList(acc_shape.elem, z3.Const(fresh_name("acc"), z3.ArraySort(z3.IntSort(), acc_shape.elem.sort)), z3.IntVal(0), z3.IntVal(0))
